@@ -146,6 +146,94 @@ class Batch:
         self.lines.append(line)
 
 
+def _strip_ir(x):
+    """dict form of an IR node without source locations / synthetic marks"""
+    from compiler.util import ir_data_utils
+    d = ir_data_utils.IrDataSerializer(x).to_dict(exclude_none=True)
+
+    def rm(o):
+        if isinstance(o, dict):
+            return {k: rm(v) for k, v in o.items() if k not in ("source_location", "is_synthetic")}
+        if isinstance(o, list):
+            return [rm(v) for v in o]
+        return o
+    return rm(d)
+
+
+def check_size_shape(chk, text, types, stats, origin):
+    """Tie for `C05_size_bounds`: in every structure the synthesised `$size_in_*` is
+    `$max(0, cond_i ? start_i + size_i : 0, …)` over the physical fields in order (the model's
+    `sizeExpr`), and `$max_size_in_*` / `$min_size_in_*` are `$upper_bound` / `$lower_bound`
+    of a reference to it."""
+    from compiler.util import ir_data, ir_util
+    FM = ir_data.FunctionMapping
+    for t in types:
+        check_size_shape(chk, text, t.subtype, stats, origin)
+        if not t.has_field("structure"):
+            continue
+        fields = {f.name.name.text: f for f in t.structure.field}
+        unit = "bits" if "$size_in_bits" in fields else "bytes"
+        sz = fields.get("$size_in_" + unit)
+        if sz is None:
+            continue
+        why = None
+        s = sz.read_transform
+        phys = [f for f in t.structure.field if not ir_util.field_is_virtual(f)]
+        try:
+            if s.function.function != FM.MAXIMUM or len(s.function.args) != len(phys) + 1 \
+                    or s.function.args[0].constant.value != "0":
+                why = "$size_in_%s is not $max(0, one clause per physical field)" % unit
+            else:
+                for f, c in zip(phys, s.function.args[1:]):
+                    ok = (c.function.function == FM.CHOICE and len(c.function.args) == 3
+                          and _strip_ir(c.function.args[0]) == _strip_ir(f.existence_condition)
+                          and c.function.args[1].function.function == FM.ADDITION
+                          and _strip_ir(c.function.args[1].function.args[0]) == _strip_ir(f.location.start)
+                          and _strip_ir(c.function.args[1].function.args[1]) == _strip_ir(f.location.size)
+                          and c.function.args[2].constant.value == "0")
+                    if not ok:
+                        why = "clause of field %s is not `existence_condition ? start + size : 0`" % f.name.name.text
+                        break
+            for nm, fn in (("$max_size_in_", FM.UPPER_BOUND), ("$min_size_in_", FM.LOWER_BOUND)):
+                b = fields.get(nm + unit)
+                if why is None and b is not None:
+                    r = b.read_transform
+                    if r.function.function != fn or len(r.function.args) != 1 or \
+                            list(r.function.args[0].field_reference.path[-1].canonical_name.object_path)[-1] \
+                            != "$size_in_" + unit:
+                        why = "%s%s is not the bound function of $size_in_%s" % (nm, unit, unit)
+        except AttributeError as e:
+            why = "unexpected IR shape: %r" % e
+        # spec oracle without the model (property statement: "$max_size_in_* … are true bounds"):
+        # a field that is always present at a constant location ends within $max_size_in_*
+        mxf = fields.get("$max_size_in_" + unit)
+        if mxf is not None and mxf.read_transform.type.integer.modulus == "infinity" and \
+                mxf.read_transform.type.integer.modular_value not in (None, "infinity", "-infinity"):
+            mx = int(mxf.read_transform.type.integer.modular_value)
+            for f in phys:
+                try:
+                    c = ir_util.constant_value(f.existence_condition)
+                    st = ir_util.constant_value(f.location.start)
+                    z = ir_util.constant_value(f.location.size)
+                except Exception:  # noqa: BLE001
+                    continue
+                if c is True and st is not None and z is not None:
+                    stats["size_static_fields"] = stats.get("size_static_fields", 0) + 1
+                    if st + z > mx:
+                        chk.violation("input", {"input": text, "origin": origin, "structure": t.name.name.text,
+                                                "observed": "$max_size_in_%s = %d" % (unit, mx),
+                                                "expected": "at least %d: field %s is always present at [%d, %d)"
+                                                            % (st + z, f.name.name.text, st, st + z)})
+                        break
+        stats["size_shape"] = stats.get("size_shape", 0) + 1
+        stats["size_clauses"] = stats.get("size_clauses", 0) + len(phys)
+        if why:
+            chk.violation("correspondence", {"input": text, "origin": origin, "structure": t.name.name.text,
+                                             "observed": why, "expected": "model sizeExpr (Spec/BoundsSize.lean)",
+                                             "theorem_or_correspondence": "C05_size_bounds"},
+                          found_input=False)
+
+
 def check_module_nodes(chk, text, ir, errs, batch, stats, origin, modules=None):
     """Node-wise queries for every expression of an annotated IR."""
     from compiler.util import ir_util
@@ -246,6 +334,7 @@ def check_module_nodes(chk, text, ir, errs, batch, stats, origin, modules=None):
         modules = [m for m in ir.module if m.source_file_name == "m.emb"]
     for m in modules:
         walk(m)
+        check_size_shape(chk, text, m.type, stats, origin)
     # every gate error belongs to the innermost top-level expression that contains it
     got = {}
     for line, lst in gk.items():
